@@ -79,6 +79,24 @@ def periodic_cases(self, rng, clauses):
     return out
 
 
+def linked_member_cases(self, rng, clauses):
+    """Two members of equal length whose contents differ at every byte; one of them is replaced by a hard link of the
+    other (in either direction): the replaced member is damaged, however the checker gets to its bytes."""
+    out = []
+    for v in (1, 2, 3):
+        for P in (B, 2 * B):
+            for sz in (3 * P + 5, P, 700):
+                for victim, donor in ((1, 0), (0, 1), (2, 0)):
+                    c = self.mk(rng, P, v, "own" if (v + victim) % 2 else "ref", 0, clauses, tree=("D3", (sz, sz, sz)), route="lib")
+                    fs = c["tree"]["files"]
+                    fs[donor]["ckey"] = "linked/" + "/".join(fs[victim]["path"])
+                    fs[victim]["ckey"] = fs[donor]["ckey"]
+                    fs[donor]["mode"] = "xl"
+                    c["damage"] = [{"file": victim, "kind": "linkto", "arg": donor}]
+                    out.append(c)
+    return out
+
+
 def missing_dir_cases(self, rng, clauses):
     """A whole directory of the payload is gone while siblings whose names merely START like the directory's
     name (disc1 / disc10 / disc1.nfo, a / a.b / a0) are intact."""
@@ -349,7 +367,7 @@ class C16(RecheckProp):
             if c["tree"].get("single"):
                 c["damage"] = [d for d in c["damage"] if d["kind"] not in ("remove", "rmdir", "dangling")]
             out.append(c)
-        out += periodic_cases(self, rng, cl) + missing_dir_cases(self, rng, cl)
+        out += periodic_cases(self, rng, cl) + missing_dir_cases(self, rng, cl) + linked_member_cases(self, rng, cl)
         out += big_piece_cases(self, rng, cl, [[], [{"file": 0, "kind": "flip", "arg": 2 ** 20 + 7}],
                                                [{"file": 0, "kind": "trunc", "arg": 2 ** 21}]])
         # payload members reached through symbolic links (inside the root / leading outside it), intact and damaged
@@ -416,6 +434,7 @@ class C04(RecheckProp):
             c["damage"] = [{"file": 0, "kind": "flip", "arg": B}]
             out.append(c)
         out += periodic_cases(self, rng, ["C04.lt100"]) + missing_dir_cases(self, rng, ["C04.lt100"])
+        out += linked_member_cases(self, rng, ["C04.lt100"])
         out += big_piece_cases(self, rng, ["C04.lt100"], [[{"file": 0, "kind": "flip", "arg": 2 ** 20 + 7}],
                                                           [{"file": 0, "kind": "trunc", "arg": 2 ** 21}]])
         lim = 20000 if tier == "thorough" else 1000
